@@ -423,3 +423,24 @@ def c09_real(r):
         'run': {'t0': 0.0, 'Tend': T, 'u0': 'exact'},
     }
     return {'engine': 'blocksim', 'config': cfg, 'plugins': ['MonFirst', 'MonRaw', 'MonLim'], 'faults': {}, 'max_events': 200000, 'max_blocks': 600, 'axis_kind': 'adaptive_real'}
+
+
+def dae_config(r, hooks=()):
+    """Semi-explicit DAE with the DAE project's sweepers (SemiImplicitDAE updates its nodes in place).  One step per
+    block: the controller's receive re-evaluates f with the ODE signature eval_f(u, t), which DAE problems do not have."""
+    P = 1
+    nsteps = r.randint(2, 5)
+    dt = r.choice([0.05, 0.1])
+    cfg = {
+        'P': P,
+        'controller': {'mssdc_jac': r.random() < 0.5, 'predict_type': None, 'all_to_done': False},
+        'problem': {'class': 'SimpleDAE', 'params': {'newton_tol': 1e-10}},
+        'sweeper': {'class': r.choice(['SemiImplicitDAE', 'SemiImplicitDAE', 'FullyImplicitDAE']), 'params': {'num_nodes': r.choice([2, 3]), 'quad_type': 'RADAU-RIGHT', 'QI': r.choice(['LU', 'IE'])}},
+        'level': {'dt': dt, 'restol': -1.0},
+        'step': {'maxiter': r.randint(2, 4)},
+        'transfer': None,
+        'cc': [],
+        'hooks': list(hooks),
+        'run': {'t0': 0.0, 'Tend': nsteps * dt, 'u0': 'exact'},
+    }
+    return {'engine': 'blocksim', 'config': cfg, 'plugins': ['MonFirst'], 'faults': {}, 'max_events': 100000, 'axis_kind': 'dae'}
